@@ -15,33 +15,42 @@ namespace PdModel.Tso
 open PdModel.Spec
 
 /-- the grant observed at position `i` of the history (start = finish = i: steps are atomic) -/
-def evOf (i : Nat) (op : Op) (o : Out) : Option C01.Ev :=
+def evOf (bits : Nat) (i : Nat) (op : Op) (o : Out) : Option C01.Ev :=
   match op, o with
-  | .getTS _ count, .ts ms l => some ⟨i, i, ms, l - count, l⟩
+  | .getTS _ count, .ts ms l => some ⟨i, i, ms, l / 2 ^ bits - count, l / 2 ^ bits, l⟩
   | _, _ => none
 
 def events : Nat → St → List Op → List C01.Ev
   | _, _, [] => []
-  | i, s, op :: ops => (evOf i op (step s op).2).toList ++ events (i + 1) (step s op).1 ops
+  | i, s, op :: ops => (evOf s.cfg.bits i op (step s op).2).toList ++ events (i + 1) (step s op).1 ops
 
-def grantEv (g : Grant) : Nat × Nat × Nat := (g.ms, g.lo, g.hi)
-def evKey (e : C01.Ev) : Nat × Nat × Nat := (e.ms, e.lo, e.hi)
+def grantEv (c : Cfg) (g : Grant) : Nat × Nat × Nat × Nat := (g.ms, g.lo, g.hi, g.hi * 2 ^ c.bits + c.suffix)
+def evKey (e : C01.Ev) : Nat × Nat × Nat × Nat := (e.ms, e.lo, e.hi, e.ret)
+
+theorem undiff (c : Cfg) (h : c.suffix < 2 ^ c.bits) (l : Nat) : (l * 2 ^ c.bits + c.suffix) / 2 ^ c.bits = l := by
+  have hpos : 0 < 2 ^ c.bits := Nat.pos_of_ne_zero (by intro h0; rw [h0] at h; omega)
+  rw [Nat.mul_comm, Nat.mul_add_div hpos, Nat.div_eq_of_lt h]; rfl
 
 /-- the observed grants are exactly the ghost log -/
-theorem events_eq_grants (i : Nat) (s : St) (ops : List Op) :
-    ((run s ops).grants.map grantEv).reverse
-      = (s.grants.map grantEv).reverse ++ (events i s ops).map evKey := by
+theorem events_eq_grants (i : Nat) (s : St) (hsfx : s.cfg.suffix < 2 ^ s.cfg.bits) (ops : List Op) :
+    ((run s ops).grants.map (grantEv s.cfg)).reverse
+      = (s.grants.map (grantEv s.cfg)).reverse ++ (events i s ops).map evKey := by
   induction ops generalizing i s with
   | nil => simp [run, events]
   | cons op ops ih =>
     simp only [run, List.foldl_cons, events, List.map_append]
-    have := ih (i + 1) (step s op).1
+    have hcfg := step_cfg s op
+    have := ih (i + 1) (step s op).1 (by rw [hcfg]; exact hsfx)
     simp only [run] at this
+    rw [hcfg] at this
     rw [this]
-    rcases step_obs s op with ⟨m, count, p, l, rfl, hout, hgr, _, _, _⟩ | ⟨hnot, hgr⟩
-    · rw [hgr, hout]; simp [evOf, grantEv, evKey]
+    rcases step_obs s op with ⟨m, count, p, l, rfl, hout, hgr, hcl, _, _⟩ | ⟨hnot, hgr⟩
+    · rw [hgr, hout]
+      simp only [evOf, undiff s.cfg hsfx l, Option.toList_some, List.map_cons, List.map_nil,
+        List.reverse_cons, List.append_assoc, List.singleton_append]
+      congr 1
     · rw [hgr]
-      have : evOf i op (step s op).2 = none := by
+      have : evOf s.cfg.bits i op (step s op).2 = none := by
         unfold evOf
         generalize (step s op).2 = o at hnot
         cases o <;> simp_all [Out.isTs]
@@ -49,13 +58,11 @@ theorem events_eq_grants (i : Nat) (s : St) (ops : List Op) :
       rw [this]; simp
 
 theorem events_index (i : Nat) (s : St) (ops : List Op) :
-    (events i s ops).Pairwise (fun a b => a.finish < b.start ∨ True) ∧
     ∀ e ∈ events i s ops, e.start = e.finish ∧ i ≤ e.start := by
   induction ops generalizing i s with
-  | nil => exact ⟨List.Pairwise.nil, fun e he => by cases he⟩
+  | nil => intro e he; cases he
   | cons op ops ih =>
-    obtain ⟨_, h2⟩ := ih (i + 1) (step s op).1
-    refine ⟨List.pairwise_of_forall (fun _ _ => Or.inr trivial), ?_⟩
+    have h2 := ih (i + 1) (step s op).1
     intro e he
     simp only [events, List.mem_append] at he
     rcases he with he | he
@@ -73,75 +80,77 @@ theorem events_sorted (i : Nat) (s : St) (ops : List Op) :
     simp only [events]
     rw [List.pairwise_append]
     refine ⟨?_, ih (i + 1) _, ?_⟩
-    · cases evOf i op (step s op).2 <;> simp
+    · cases evOf s.cfg.bits i op (step s op).2 <;> simp
     · intro a ha b hb
-      have hb' := (events_index (i + 1) (step s op).1 ops).2 b hb
+      have hb' := events_index (i + 1) (step s op).1 ops b hb
       unfold evOf at ha
       split at ha
       · simp only [Option.toList_some, List.mem_singleton] at ha; subst ha; simp only; omega
       · simp at ha
 
-/-- **C01 (single allocator).**  For every history: the granted ranges are pairwise disjoint, strictly
-    increase along the history (hence in real-time order: a request that completed before another began
-    comes earlier), and every logical part fits below `maxLogical`. -/
+/-- **C01 (one allocator: the global allocator without dc-locations, or one local allocator with its
+    suffix).**  For every history: the granted ranges are pairwise disjoint, strictly increase along the
+    history (hence in real-time order: a request that completed before another began comes earlier), and
+    the logical part *as returned* (raw value shifted by the suffix bits, plus the suffix) fits 18 bits. -/
 theorem C01_holds (c : Cfg) (hc : CfgOk c) (hml : c.maxLogical = 2 ^ 18) (ops : List Op)
     (hf : ∀ op ∈ ops, op.faithful) : C01.Holds 18 (events 0 (init c) ops) := by
   obtain ⟨hinv, hcfg⟩ := inv_run c hc ops hf
-  have heq := events_eq_grants 0 (init c) ops
+  have heq := events_eq_grants 0 (init c) hc.sfx_lt ops
   simp only [init, List.map_nil, List.reverse_nil, List.nil_append] at heq
-  have heq' : (events 0 (init c) ops).map evKey = ((run (init c) ops).grants.map grantEv).reverse := by
+  have heq' : (events 0 (init c) ops).map evKey = ((run (init c) ops).grants.map (grantEv c)).reverse := by
     simp only [init]; exact heq.symm
-  -- facts about the ghost log, transported to the events through the equality of keys
-  have hkeys : ∀ e ∈ events 0 (init c) ops, ∃ g ∈ (run (init c) ops).grants, grantEv g = evKey e := by
+  have hkeys : ∀ e ∈ events 0 (init c) ops, ∃ g ∈ (run (init c) ops).grants, grantEv c g = evKey e := by
     intro e he
     have : evKey e ∈ (events 0 (init c) ops).map evKey := List.mem_map_of_mem he
     rw [heq'] at this
     simp only [List.mem_reverse, List.mem_map] at this
     exact this
   apply C01.holds_of_linearisation
-  · -- values increase along the history
-    have ho := hinv.gr.o
-    have hrev : (((run (init c) ops).grants.map grantEv).reverse).Pairwise
-        (fun a b => a.1 < b.1 ∨ (a.1 = b.1 ∧ a.2.2 ≤ b.2.1)) := by
+  · have ho := hinv.gr.o
+    have hrev : (((run (init c) ops).grants.map (grantEv c)).reverse).Pairwise
+        (fun a b => a.1 < b.1 ∨ (a.1 = b.1 ∧ a.2.2.1 ≤ b.2.1)) := by
       rw [List.pairwise_reverse, List.pairwise_map]
       exact ho.imp (fun h => by simpa [grantEv] using h)
     rw [← heq', List.pairwise_map] at hrev
     exact hrev.imp (fun h => by simpa [evKey, C01.valuesLt] using h)
   · apply List.Pairwise.imp_of_mem _ (events_sorted 0 (init c) ops)
     intro a b ha hb hab
-    have h1 := ((events_index 0 (init c) ops).2 b hb).1
+    have h1 := (events_index 0 (init c) ops b hb).1
     omega
   · intro e he
     obtain ⟨g, hg, hk⟩ := hkeys e he
     obtain ⟨h1, h2, _, _⟩ := hinv.gr.g g hg
-    have hse := ((events_index 0 (init c) ops).2 e he).1
+    have hse := (events_index 0 (init c) ops e he).1
     simp only [grantEv, evKey, Prod.mk.injEq] at hk
     refine ⟨by omega, ?_, by omega⟩
     rw [hcfg, hml] at h2; omega
 
-/-- the configuration with the constants extracted from the Go source; the save interval and the
-    reset gap are run-time configuration -/
-def extractedCfg (si gapMs : Nat) : Cfg where
+/-- the configuration with the constants extracted from the Go source; the save interval, the reset gap
+    and the suffix assignment are run-time configuration -/
+def extractedCfg (si gapMs bits suffix : Nat) : Cfg where
   guard := PdModel.Generated.Tso.updateTimestampGuard
   saveInterval := si
   maxLogical := PdModel.Generated.Tso.maxLogical
   maxResetGapMs := gapMs
   maxRetry := PdModel.Generated.Tso.maxRetryCount
+  bits := bits
+  suffix := suffix
 
-theorem extractedCfg_ok (si gapMs : Nat) (hsi : PdModel.Generated.Tso.updateTimestampGuard < si) :
-    CfgOk (extractedCfg si gapMs) :=
-  ⟨(by decide : 1000000 ≤ PdModel.Generated.Tso.updateTimestampGuard), hsi⟩
+theorem extractedCfg_ok (si gapMs bits suffix : Nat) (hsi : PdModel.Generated.Tso.updateTimestampGuard < si)
+    (hsfx : suffix < 2 ^ bits) : CfgOk (extractedCfg si gapMs bits suffix) :=
+  ⟨(by decide : 1000000 ≤ PdModel.Generated.Tso.updateTimestampGuard), hsi, hsfx⟩
 
 /-- instantiated with the constants extracted from the Go source -/
-theorem C01_holds_extracted (si gapMs : Nat) (hsi : PdModel.Generated.Tso.updateTimestampGuard < si)
-    (ops : List Op) (hf : ∀ op ∈ ops, op.faithful) :
-    C01.Holds 18 (events 0 (init (extractedCfg si gapMs)) ops) :=
-  C01_holds _ (extractedCfg_ok si gapMs hsi) (by decide : PdModel.Generated.Tso.maxLogical = 2 ^ 18) ops hf
+theorem C01_holds_extracted (si gapMs bits suffix : Nat) (hsi : PdModel.Generated.Tso.updateTimestampGuard < si)
+    (hsfx : suffix < 2 ^ bits) (ops : List Op) (hf : ∀ op ∈ ops, op.faithful) :
+    C01.Holds 18 (events 0 (init (extractedCfg si gapMs bits suffix)) ops) :=
+  C01_holds _ (extractedCfg_ok si gapMs bits suffix hsi hsfx)
+    (by decide : PdModel.Generated.Tso.maxLogical = 2 ^ 18) ops hf
 
-theorem C02_holds_extracted (si gapMs : Nat) (hsi : PdModel.Generated.Tso.updateTimestampGuard < si)
-    (ops : List Op) (hf : ∀ op ∈ ops, op.faithful) :
-    C02.Holds (trace (init (extractedCfg si gapMs)) ops) :=
-  C02_holds _ (extractedCfg_ok si gapMs hsi) ops hf
+theorem C02_holds_extracted (si gapMs bits suffix : Nat) (hsi : PdModel.Generated.Tso.updateTimestampGuard < si)
+    (hsfx : suffix < 2 ^ bits) (ops : List Op) (hf : ∀ op ∈ ops, op.faithful) :
+    C02.Holds (trace (init (extractedCfg si gapMs bits suffix)) ops) :=
+  C02_holds _ (extractedCfg_ok si gapMs bits suffix hsi hsfx) ops hf
 
 /-- structure obligations re-checked against the regenerated facts: the three window writers hold
     the window mutex for their whole body, and the logical field is 18 bits wide on both sides -/
